@@ -520,6 +520,32 @@ class Run:
         self.violations = 1 if rc else 0
         return rc, lines_out
 
+    def probe_broken_cases(self):
+        """the model and the implementation went apart on some cases of engine seq but no oracle failed:
+        search for a concrete failing input by extending exactly those cases (tree rebuilt from the data files,
+        then a get of every key) and letting the oracles judge the extended run"""
+        known = {k["key"] for k in self.load_known() if k.get("status") == "known"}
+        if any(d["kind"] == "oracle" and d["key"] not in known and d["key"] not in self.other_known for d in self.diffs):
+            return
+        cases, body = [], []
+        for d in self.diffs:
+            if d["kind"] == "oracle" or d["engine"] != "seq":
+                continue
+            cid = (d.get("trace"), d.get("case"))
+            if cid in cases or d.get("case") is None:
+                continue
+            cases.append(cid)
+            body += self.case_lines(d)
+            if len(cases) >= 24:
+                break
+        if not cases:
+            return
+        path = os.path.join(self.scratch, "probe-cases.txt")
+        with open(path, "w") as f:
+            f.write("#engine seq\n" + "\n".join(body) + "\n")
+        self.notes.append("tie broken on %d case(s) without an oracle failure: extended them with a rebuild restart and a get of every key" % len(cases))
+        self.run_engine("seq", 1, 1, replay=path, extra=["-mix", "probe"])
+
     def evidence(self):
         cov = self.cov
         distinct = cov.pop("_distinct", set())
@@ -571,6 +597,7 @@ class Run:
             engine, n, shards = engine_cfg[0], engine_cfg[tier_i], engine_cfg[3]
             extra = engine_cfg[4] if len(engine_cfg) > 4 else None
             self.run_engine(engine, n, shards, extra=extra, intensify=intensify)
+        self.probe_broken_cases()
         rc, out = self.verdict()
         self.evidence()
         for l in out:
